@@ -153,7 +153,7 @@ theorem C08_factory :
     factory "IPv6-UDP-CoAP" = .ok [⟨"IPv6Parser", false, .syntactic⟩, ⟨"UDPParser", false, .syntactic⟩, ⟨"CoAPParser", false, .syntactic⟩] ∧
     factory "IPv4-UDP-CoAP" = .ok [⟨"IPv4Parser", false, .syntactic⟩, ⟨"UDPParser", false, .syntactic⟩, ⟨"CoAPParser", false, .syntactic⟩] ∧
     factory "IPv6" = .ok [⟨"IPv6Parser", true, .syntactic⟩] ∧ factory "IPv4" = .ok [⟨"IPv4Parser", true, .syntactic⟩] := by
-  refine ⟨by decide +kernel, by decide +kernel, by decide +kernel, by decide +kernel⟩
+  refine ⟨rfl, rfl, rfl, rfl⟩
 
 /-- parsers with next-protocol prediction agree with the explicit stack parsers: whenever the explicit IPv6|IPv4 /
     UDP / CoAP stack parses a packet whose next-header (protocol) field says UDP and whose destination port is the
